@@ -126,7 +126,8 @@ def r3(ctx):
     hir = ctx.anchor_hir(VISIT_DIR)
     ins = [c for c in walk_exprs(hir) if c["k"] == "MCall" and c["m"] in ("insert", "contains") and "visited_dirs" in render(c["recv"])]
     ok = bool(ins)
-    key_ok = all("canonical" in render(c["args"][0]) for c in ins) if ins else False
+    klocs = Locals(hir)
+    key_ok = all("canonical" in render(klocs.chase(peel(c["args"][0]))) or "canonical" in render(c["args"][0]) for c in ins) if ins else False
     ctx.obligation(key_ok)
     if not key_ok:
         ctx.violation("visited/canonical-key", ctx.where(VISIT_DIR), "the visited set must be keyed by the canonical path of the directory: a directory reached through a link and directly is otherwise listed twice (%s)" % [render(c["args"][0]) for c in ins])
